@@ -6,6 +6,8 @@ import (
 	"testing"
 	"time"
 
+	"pgregory.net/rapid"
+
 	"verif/internal/hx"
 )
 
@@ -22,7 +24,8 @@ var c02Cfg = genCfg{
 }
 
 type delivery struct {
-	op, firstOp int
+	op, firstOp int // in ticks
+	call        int // index of the call of the history in progress
 	off         uint32
 	seq         uint32
 }
@@ -35,12 +38,19 @@ func propC02(h History) error {
 	bk := newBook(h)
 	var ds []delivery
 	firstOf := map[uint32]int{} // sequence -> op of the first record of its most recent incarnation
-	inversion, seam, late := false, false, false
+	inversion, seam, late, nestedDone := false, false, false, false
+	// "before" and "after" are counted in ticks: one per call of the history and one per callback or push made from
+	// inside a callback, so that a record the Stream pushes from a callback has its place between the deliveries
+	tick := 0
 	for i, o := range h.Ops {
 		st := &tr.Steps[i]
+		tick++
 		if isPush(o) && st.Err == nil {
 			_, existed := bk.pending[o.Seq]
 			bk.notePush(i, o, st)
+			if !existed && o.Typ != eoe {
+				bk.pending[o.Seq].firstOp = tick
+			}
 			if !existed && o.Typ != eoe {
 				for s := range bk.pending {
 					if h.off(s) > h.off(o.Seq) {
@@ -50,11 +60,21 @@ func propC02(h History) error {
 			}
 		}
 		for _, cb := range st.CBs {
+			tick++
+			if cb.NestedPush {
+				_, existed := bk.pending[cb.PushSeq]
+				bk.notePush(cb.PushID, Op{K: opPush, Seq: cb.PushSeq, Typ: cb.PushTyp}, st)
+				if !existed {
+					bk.pending[cb.PushSeq].firstOp = tick
+				}
+				nestedDone = true
+				continue
+			}
 			if !cb.IsEv || len(cb.Seqs) == 0 {
 				continue
 			}
 			seq := cb.Seqs[0]
-			first := i
+			first := tick
 			if e := bk.pending[seq]; e != nil {
 				first = e.firstOp
 				firstOf[seq] = first
@@ -62,12 +82,12 @@ func propC02(h History) error {
 				// nothing was pushed for this sequence since it was delivered last: these are the records of then
 				first = f
 			}
-			d := delivery{op: i, firstOp: first, off: h.off(seq), seq: seq}
+			d := delivery{op: tick, call: i, firstOp: first, off: h.off(seq), seq: seq}
 			for _, p := range ds {
 				if p.off > d.off {
 					// p has the higher sequence and was delivered before d
 					if !(d.firstOp > p.op) {
-						return fmt.Errorf("op %d: event seq %d (offset %d, first record pushed in op %d) delivered after event seq %d (offset %d, delivered in op %d) although it was already buffered then", i, d.seq, d.off, d.firstOp, p.seq, p.off, p.op)
+						return fmt.Errorf("op %d: event seq %d (offset %d, first record pushed at tick %d) delivered at tick %d, after event seq %d (offset %d, delivered in op %d at tick %d) although it was already buffered then (ticks count calls, callbacks and pushes made from callbacks)", i, d.seq, d.off, d.firstOp, d.op, p.seq, p.off, p.call, p.op)
 					}
 					late = true
 				}
@@ -88,6 +108,9 @@ func propC02(h History) error {
 	if late {
 		hC02.Class("history-with-late-arrival")
 	}
+	if nestedDone {
+		hC02.Class("history-with-push-from-eventslost")
+	}
 	if inversion || seam || late {
 		hC02.NonTrivial(fpHistory(h), h.Describe)
 	}
@@ -97,7 +120,12 @@ func propC02(h History) error {
 func TestC02Regress(t *testing.T) { hx.Regress(t, hC02, "TestC02", propC02) }
 
 func TestC02(t *testing.T) {
-	hx.Check(t, hC02, "TestC02", func(rt *rapidT) History { return genHistory(rt, c02Cfg) }, propC02)
+	hx.Check(t, hC02, "TestC02", func(rt *rapidT) History {
+		h := genHistory(rt, c02Cfg)
+		// one history in three: the Stream goes on pushing from inside EventsLost
+		h.Reenter = rapid.SampledFrom([]string{"", "lostpushdone", ""}).Draw(rt, "reenter")
+		return h
+	}, propC02)
 }
 
 // TestC02Large: see heldBackHistories.
